@@ -2,7 +2,8 @@
 
 A trace hook invokes the real handler FlowSampler.safe_exit(signum, frame) *before* a chosen source line of the sampling loop — exactly where CPython would
 run a Python-level signal handler — at several phases of the run; the SystemExit is taken, then a fresh FlowSampler(resume=True) finishes the run under the
-C01/C03/C05 monitors.  A few cases deliver a real signal with os.kill to a child process and observe the process exit status.
+C01/C03/C05 monitors.  Further cases deliver real signals (os.kill, setitimer) to child processes running with nessai's own registered handlers, at chosen points, at the n-th nessai
+function entry and after wall-clock delays; the process exit status is observed and the checkpoint left is resumed under the same oracles.
 """
 import inspect
 import json
@@ -75,106 +76,45 @@ def points_of(ns, names, ins=False):
     return pts
 
 
-def inject(case):
-    """One injection in this process.  Returns a result dict (never raises)."""
-    assert_repo()
-    from vlib.runs import std_kwargs, ins_kwargs, quiet_logging, reset_globals
+def state_predicates(ns):
+    """State predicates of the standard sampler at the instant of a signal (they decide which recorded mechanism, if any, a problem belongs to)."""
+    st = ns.state
+    prop = getattr(ns, "proposal", None)
+    return dict(
+        # an increment of the integral state is only partly applied (nlive is appended first, logLs/log_vols last), or the state
+        # and the list of discarded points disagree
+        integral_state_torn=bool(len(st.logLs) != len(st.log_vols) or len(st.nlive) != len(st.logLs) - 1
+                                 or len(st.logLs) - 1 != len(ns.nested_samples)),
+        replace_window=bool(len(ns.nested_samples) != len(ns.insertion_indices)),
+        pool_flag_window=bool(prop is not None and getattr(prop, "populated", False) and not getattr(prop, "indices", [1])),
+        live_is_none=ns.live_points is None,
+        # the worst point is recorded but the iteration counter has not advanced yet: on the unchanged code only between two adjacent statements of
+        # consume_sample itself
+        iteration_not_advanced=bool(ns.live_points is not None and len(ns.nested_samples) == ns.iteration + 1),
+    )
+
+
+def sha(path):
+    import hashlib
+
+    return hashlib.sha256(open(path, "rb").read()).hexdigest() if os.path.exists(path) else None
+
+
+def resume_and_check(case, res, snap):
+    """Second half of an injection: a fresh FlowSampler(resume=True) takes the checkpoint the handler left, the restored state is compared with the snapshot taken at
+    the instant of the signal (conservation of points, count identities), and the run is finished under the C01/C03/C05 monitors.  `res` needs "exit"."""
+    from vlib.runs import std_kwargs, ins_kwargs, reset_globals
     from vlib import zoo
     from vlib.monitors.standard import StandardMonitors
     from vlib.monitors.ins import INSMonitors
     from vlib.monitors.results import check_standard_result, check_ins_result
     from nessai.flowsampler import FlowSampler
-    import hashlib
 
-    quiet_logging()
-    reset_globals()
     ins = case["sampler"] == "ins"
-    std, insf = target_functions()
-    f = (insf if ins else std)[case["func"]]
-    code, start, lns, src = lines_of(f)
-    target = start + case["rel"]
     out = case["outdir"]
-    shutil.rmtree(out, ignore_errors=True)
-    kw = (ins_kwargs if ins else std_kwargs)(dict(INS_KW if ins else STD_KW, **case.get("kwargs", {})))
-    model = zoo.make(case.get("model", "G2u"))
-    names = list(model.names)
-    res = dict(func=case["func"], rel=case["rel"], min_it=case["min_it"], sampler=case["sampler"], fired=False)
-    fired = [False]
-    snap = {}
-    signum = case.get("signum", 15)
-    fs = FlowSampler(model, output=out, resume=False, importance_nested_sampler=ins, exit_code=case.get("exit_code", 130), **kw)
     rf = os.path.join(out, "nested_sampler_resume.pkl")
-
-    def sha(path):
-        return hashlib.sha256(open(path, "rb").read()).hexdigest() if os.path.exists(path) else None
-
-    opcode_n = case.get("opcode")
-    op_count = [0, False]   # opcodes executed in the armed call, armed?
-
-    def tracer(frame, event, arg):
-        if frame.f_code is code:
-            if opcode_n is not None:
-                frame.f_trace_opcodes = True
-                if not fired[0] and op_count[1] is False and fs.ns.iteration >= case["min_it"]:
-                    op_count[0], op_count[1] = 0, "armed"    # arm on entry of the first call at or after the phase
-
-            def local(frame, event, arg):
-                if opcode_n is not None:
-                    hit = event == "opcode" and op_count[1] == "armed" and not fired[0]
-                    if hit:
-                        op_count[0] += 1
-                        hit = op_count[0] - 1 == opcode_n
-                    if event == "return" and op_count[1] == "armed" and not fired[0]:
-                        op_count[1] = "done"    # the armed call ended before the n-th opcode: not reached
-                else:
-                    hit = event == "line" and frame.f_lineno == target and not fired[0] and fs.ns.iteration >= case["min_it"]
-                if hit:
-                    fired[0] = True
-                    sys.settrace(None)
-                    snap["lineno"] = frame.f_lineno - start
-                    ns = fs.ns
-                    snap["it"] = int(ns.iteration)
-                    if not ins:
-                        snap["pts"] = points_of(ns, names)
-                        st = ns.state
-                        prop = getattr(ns, "proposal", None)
-                        snap["pred"] = dict(
-                            # an increment of the integral state is only partly applied (nlive is appended first, logLs/log_vols last), or the state
-                            # and the list of discarded points disagree
-                            integral_state_torn=bool(len(st.logLs) != len(st.log_vols) or len(st.nlive) != len(st.logLs) - 1
-                                                     or len(st.logLs) - 1 != len(ns.nested_samples)),
-                            replace_window=bool(len(ns.nested_samples) != len(ns.insertion_indices)),
-                            pool_flag_window=bool(prop is not None and getattr(prop, "populated", False) and not getattr(prop, "indices", [1])),
-                            live_is_none=ns.live_points is None,
-                            # the worst point is recorded but the iteration counter has not advanced yet: on the unchanged code only between two adjacent statements of
-                            # consume_sample itself
-                            iteration_not_advanced=bool(ns.live_points is not None and len(ns.nested_samples) == ns.iteration + 1),
-                        )
-                    else:
-                        snap["sha_before"] = sha(rf)
-                        snap["n_samples"] = None if ns.training_samples.samples is None else int(len(ns.training_samples.samples))
-                    fs.safe_exit(signum, frame)   # the real handler; raises SystemExit(exit_code)
-                return local
-            return local
-        return None
-
-    sys.settrace(tracer)
-    try:
-        fs.run(plot=False, save=False)
-    except SystemExit as e:
-        res["fired"] = True
-        res["exit"] = e.code
-    except BaseException as e:
-        res["error_first_segment"] = f"{type(e).__name__}: {e}"[:200]
-    finally:
-        sys.settrace(None)
-    try:
-        model.close_pool()
-    except Exception:
-        pass
-    if not res["fired"]:
-        shutil.rmtree(out, ignore_errors=True)
-        return res
+    kw = (ins_kwargs if ins else std_kwargs)(dict(INS_KW if ins else STD_KW, **case.get("kwargs", {})))
+    names = list(zoo.make(case.get("model", "G2u")).names)
     res["snap_it"] = snap.get("it")
     res["snap_line"] = snap.get("lineno")
     res["pred"] = snap.get("pred")
@@ -262,6 +202,91 @@ def inject(case):
     res["problems"] = problems
     res["monitor_counts"] = mon.counts
     return res
+
+
+def inject(case):
+    """One injection in this process.  Returns a result dict (never raises)."""
+    assert_repo()
+    from vlib.runs import std_kwargs, ins_kwargs, quiet_logging, reset_globals
+    from vlib import zoo
+    from vlib.monitors.standard import StandardMonitors
+    from vlib.monitors.ins import INSMonitors
+    from vlib.monitors.results import check_standard_result, check_ins_result
+    from nessai.flowsampler import FlowSampler
+    quiet_logging()
+    reset_globals()
+    ins = case["sampler"] == "ins"
+    std, insf = target_functions()
+    f = (insf if ins else std)[case["func"]]
+    code, start, lns, src = lines_of(f)
+    target = start + case["rel"]
+    out = case["outdir"]
+    shutil.rmtree(out, ignore_errors=True)
+    kw = (ins_kwargs if ins else std_kwargs)(dict(INS_KW if ins else STD_KW, **case.get("kwargs", {})))
+    model = zoo.make(case.get("model", "G2u"))
+    names = list(model.names)
+    res = dict(func=case["func"], rel=case["rel"], min_it=case["min_it"], sampler=case["sampler"], fired=False)
+    fired = [False]
+    snap = {}
+    signum = case.get("signum", 15)
+    fs = FlowSampler(model, output=out, resume=False, importance_nested_sampler=ins, exit_code=case.get("exit_code", 130), **kw)
+    rf = os.path.join(out, "nested_sampler_resume.pkl")
+
+    opcode_n = case.get("opcode")
+    op_count = [0, False]   # opcodes executed in the armed call, armed?
+
+    def tracer(frame, event, arg):
+        if frame.f_code is code:
+            if opcode_n is not None:
+                frame.f_trace_opcodes = True
+                if not fired[0] and op_count[1] is False and fs.ns.iteration >= case["min_it"]:
+                    op_count[0], op_count[1] = 0, "armed"    # arm on entry of the first call at or after the phase
+
+            def local(frame, event, arg):
+                if opcode_n is not None:
+                    hit = event == "opcode" and op_count[1] == "armed" and not fired[0]
+                    if hit:
+                        op_count[0] += 1
+                        hit = op_count[0] - 1 == opcode_n
+                    if event == "return" and op_count[1] == "armed" and not fired[0]:
+                        op_count[1] = "done"    # the armed call ended before the n-th opcode: not reached
+                else:
+                    hit = event == "line" and frame.f_lineno == target and not fired[0] and fs.ns.iteration >= case["min_it"]
+                if hit:
+                    fired[0] = True
+                    sys.settrace(None)
+                    snap["lineno"] = frame.f_lineno - start
+                    ns = fs.ns
+                    snap["it"] = int(ns.iteration)
+                    if not ins:
+                        snap["pts"] = points_of(ns, names)
+                        snap["pred"] = state_predicates(ns)
+                    else:
+                        snap["sha_before"] = sha(rf)
+                        snap["n_samples"] = None if ns.training_samples.samples is None else int(len(ns.training_samples.samples))
+                    fs.safe_exit(signum, frame)   # the real handler; raises SystemExit(exit_code)
+                return local
+            return local
+        return None
+
+    sys.settrace(tracer)
+    try:
+        fs.run(plot=False, save=False)
+    except SystemExit as e:
+        res["fired"] = True
+        res["exit"] = e.code
+    except BaseException as e:
+        res["error_first_segment"] = f"{type(e).__name__}: {e}"[:200]
+    finally:
+        sys.settrace(None)
+    try:
+        model.close_pool()
+    except Exception:
+        pass
+    if not res["fired"]:
+        shutil.rmtree(out, ignore_errors=True)
+        return res
+    return resume_and_check(case, res, snap)
 
 
 def multi(case):
@@ -393,49 +418,203 @@ def multi(case):
 
 
 REAL_SIGNAL_SCRIPT = r'''
-import json, os, signal, sys
+import json, os, signal, sys, threading
 cfg = json.loads(sys.argv[1])
 from vlib.runs import std_kwargs, ins_kwargs, quiet_logging, reset_globals
 from vlib import zoo
-from checks.c13 import target_functions, lines_of, STD_KW, INS_KW
+from checks.c13 import target_functions, lines_of, STD_KW, INS_KW, state_predicates, points_of, sha
 from nessai.flowsampler import FlowSampler
 quiet_logging(); reset_globals()
 ins = cfg["sampler"] == "ins"
-std, insf = target_functions()
-code, start, lns, src = lines_of((insf if ins else std)[cfg["func"]])
-target = start + cfg["rel"]
-kw = (ins_kwargs if ins else std_kwargs)(dict(INS_KW if ins else STD_KW))
-fs = FlowSampler(zoo.make("G2u"), output=cfg["outdir"], resume=False, importance_nested_sampler=ins, exit_code=cfg["exit_code"], **kw)
-fired = [False]
-def tracer(frame, event, arg):
-    if frame.f_code is code:
-        def local(frame, event, arg):
-            if event == "line" and frame.f_lineno == target and not fired[0] and fs.ns.iteration >= cfg["min_it"]:
-                fired[0] = True
-                sys.settrace(None)
-                os.kill(os.getpid(), cfg["signum"])   # a real signal: CPython runs nessai's handler at the next bytecode boundary
+kw = (ins_kwargs if ins else std_kwargs)(dict(INS_KW if ins else STD_KW, **cfg.get("kwargs", {})))
+model = zoo.make(cfg.get("model", "G2u"))
+names = list(model.names)
+fs = FlowSampler(model, output=cfg["outdir"], resume=False, importance_nested_sampler=ins, exit_code=cfg["exit_code"], **kw)
+rf = os.path.join(cfg["outdir"], "nested_sampler_resume.pkl")
+SIGS = [signal.SIGTERM, signal.SIGINT, signal.SIGALRM]
+registered = {}
+def wrap(orig):
+    # observer around the handler nessai registered itself: records the state at the instant CPython runs the handler, then calls it unchanged
+    def handler(signum, frame):
+        ns = fs.ns
+        snap = dict(it=int(ns.iteration), signum=int(signum))
+        st, f = [], frame
+        while f is not None:
+            if "/nessai/" in f.f_code.co_filename:
+                st.append(f.f_code.co_name)
+            f = f.f_back
+        snap["stack"] = st[:6]
+        if not ins:
+            snap["pts"] = points_of(ns, names)
+            snap["pred"] = state_predicates(ns)
+        else:
+            snap["sha_before"] = sha(rf)
+        with open(cfg["snapfile"], "w") as fh:
+            json.dump(snap, fh)
+        return orig(signum, frame)
+    return handler
+for sg in SIGS:
+    h = signal.getsignal(sg)
+    registered[int(sg)] = bool(callable(h) and h is not signal.default_int_handler)
+    if registered[int(sg)]:
+        signal.signal(sg, wrap(h))
+with open(cfg["snapfile"] + ".reg", "w") as fh:
+    json.dump(registered, fh)
+signum = cfg["signum"]
+if cfg.get("calibrate"):
+    pass
+elif cfg.get("delay") is None and cfg.get("how") != "call-count":
+    # synchronous placement: the signal is raised before the first traced line of a function of the sampling loop once the phase is reached
+    std, insf = target_functions()
+    code, start, lns, src = lines_of((insf if ins else std)[cfg["func"]])
+    fired = [False]
+    def tracer(frame, event, arg):
+        if frame.f_code is code and not fired[0]:
+            def local(frame, event, arg):
+                if event == "line" and not fired[0] and fs.ns.iteration >= cfg["min_it"]:
+                    fired[0] = True
+                    sys.settrace(None)
+                    os.kill(os.getpid(), signum)   # a real signal: CPython runs the registered handler at the next bytecode boundary
+                return local
             return local
-        return local
-sys.settrace(tracer)
+    sys.settrace(tracer)
+elif cfg.get("how") == "call-count":
+    # deterministic "anywhere" placement: the signal is raised at the n-th entry of any Python function defined in nessai (nested callees included)
+    n_target, n_seen = cfg["n_call"], [0]
+    def prof(frame, event, arg):
+        if event == "call" and "/nessai/" in frame.f_code.co_filename:
+            n_seen[0] += 1
+            if n_seen[0] == n_target:
+                sys.setprofile(None)
+                os.kill(os.getpid(), signum)
+    cls = type(fs.ns)
+    loop = cls.nested_sampling_loop
+    def start_then_loop(self, *a, **k):
+        cls.nested_sampling_loop = loop
+        sys.setprofile(prof)
+        return loop(self, *a, **k)
+    cls.nested_sampling_loop = start_then_loop
+else:
+    # asynchronous placement: the signal arrives after a wall-clock delay, wherever the run happens to be
+    def arm():
+        if signum == signal.SIGALRM and cfg.get("how") == "itimer":
+            signal.setitimer(signal.ITIMER_REAL, cfg["delay"])
+        else:
+            t = threading.Timer(cfg["delay"], os.kill, (os.getpid(), signum))
+            t.daemon = True
+            t.start()
+    cls = type(fs.ns)
+    loop = cls.nested_sampling_loop
+    def start_then_loop(self, *a, **k):
+        cls.nested_sampling_loop = loop    # class attribute (never pickled), restored at once
+        arm()
+        return loop(self, *a, **k)
+    cls.nested_sampling_loop = start_then_loop
+if cfg.get("calibrate"):
+    import time
+    n_calls = [0]
+    def count(frame, event, arg):
+        if event == "call" and "/nessai/" in frame.f_code.co_filename:
+            n_calls[0] += 1
+    cls = type(fs.ns)
+    loop = cls.nested_sampling_loop
+    t_loop = [None, None]
+    def timed_loop(self, *a, **k):
+        cls.nested_sampling_loop = loop
+        if cfg["calibrate"] == "calls":
+            sys.setprofile(count)
+        t_loop[0] = time.time()
+        try:
+            return loop(self, *a, **k)
+        finally:
+            sys.setprofile(None)
+            t_loop[1] = time.time()
+    cls.nested_sampling_loop = timed_loop
+    fs.run(plot=False, save=False)
+    print("CALIBRATION " + json.dumps(dict(calls=n_calls[0], seconds=t_loop[1] - t_loop[0], iterations=int(fs.ns.iteration))))
+    sys.exit(0)
 fs.run(plot=False, save=False)
 print("NOT-INTERRUPTED")
 '''
 
 
-def real_signal(case):
-    """Real signal delivered to a child process; the exit status of the process is observed, then the checkpoint is resumed in-process."""
+def calibrate(case):
+    """Uninterrupted child run of the same configuration: wall-clock length of the sampling loop, or the number of nessai function entries in it."""
     assert_repo()
     out = case["outdir"]
     shutil.rmtree(out, ignore_errors=True)
-    cfg = dict(case, outdir=out)
-    p = subprocess.run(["/venv/bin/python", "-c", REAL_SIGNAL_SCRIPT, json.dumps(cfg)], capture_output=True, text=True, timeout=300, cwd=ROOT)
-    res = dict(func=case["func"], rel=case["rel"], signum=case["signum"], rc=p.returncode, interrupted="NOT-INTERRUPTED" not in p.stdout, problems=[])
-    if res["interrupted"] and p.returncode != case["exit_code"]:
-        res["problems"].append(("real-signal:process-exit-status", dict(rc=p.returncode, expected=case["exit_code"], stderr=p.stderr[-300:])))
-    res["checkpoint_left"] = os.path.exists(os.path.join(out, "nested_sampler_resume.pkl"))
-    if res["interrupted"] and case["sampler"] == "std" and not res["checkpoint_left"]:
-        res["problems"].append(("real-signal:no-checkpoint-left", ""))
+    cfg = dict(case, outdir=out, snapfile=out + ".snap.json", signum=15, exit_code=130)
+    try:
+        p = subprocess.run(["/venv/bin/python", "-c", REAL_SIGNAL_SCRIPT, json.dumps(cfg)], capture_output=True, text=True, timeout=400, cwd=ROOT)
+    finally:
+        shutil.rmtree(out, ignore_errors=True)
+        for f in (out + ".snap.json", out + ".snap.json.reg"):
+            if os.path.exists(f):
+                os.remove(f)
+    line = [l for l in p.stdout.splitlines() if l.startswith("CALIBRATION ")]
+    if not line:
+        return dict(error=p.stderr[-300:])
+    return json.loads(line[0][len("CALIBRATION "):])
+
+
+def real_signal(case):
+    """A real signal (os.kill / setitimer) reaches a child process that runs a sampler with nessai's own handlers installed; the exit status of the process is
+    observed, then the checkpoint it left is resumed here under the monitors.  Placement is synchronous (before the first line of a chosen function once a phase is
+    reached) or asynchronous (after a wall-clock delay, i.e. at whatever bytecode boundary the run has reached: nested calls included)."""
+    assert_repo()
+    from vlib.runs import quiet_logging
+
+    quiet_logging()
+    out = case["outdir"]
     shutil.rmtree(out, ignore_errors=True)
+    snapfile = out + ".snap.json"
+    for f in (snapfile, snapfile + ".reg"):
+        if os.path.exists(f):
+            os.remove(f)
+    cfg = dict(case, outdir=out, snapfile=snapfile, signum=int(case["signum"]))
+    env = dict(os.environ)
+    try:
+        p = subprocess.run(["/venv/bin/python", "-c", REAL_SIGNAL_SCRIPT, json.dumps(cfg)], capture_output=True, text=True, timeout=300, cwd=ROOT, env=env)
+    except subprocess.TimeoutExpired:
+        shutil.rmtree(out, ignore_errors=True)
+        return dict(timeout=True)
+    res = dict(func=case.get("func"), rel=None, min_it=case.get("min_it"), sampler=case["sampler"], signum=int(case["signum"]), rc=p.returncode,
+               interrupted="NOT-INTERRUPTED" not in p.stdout, fired=False)
+    reg = json.load(open(snapfile + ".reg")) if os.path.exists(snapfile + ".reg") else None
+    res["registered"] = reg
+    if reg is None:
+        res["child_error"] = p.stderr[-400:]
+        shutil.rmtree(out, ignore_errors=True)
+        return res
+    problems0 = []
+    for sg, ok in reg.items():
+        if not ok:
+            problems0.append((f"no-handler-registered-for-signal-{sg}", ""))
+    if not res["interrupted"]:
+        res["problems"] = problems0
+        shutil.rmtree(out, ignore_errors=True)
+        return res
+    res["fired"] = True
+    res["exit"] = p.returncode
+    if os.path.exists(snapfile):
+        snap = json.load(open(snapfile))
+        if snap.get("pts") is not None:
+            snap["pts"] = [tuple(q) for q in snap["pts"]]
+    else:
+        # the process ended without the registered handler having run (default action of the signal, or a crash): nothing is known about the instant
+        snap = dict(pts=None, handler_did_not_run=True)
+        res["stderr"] = p.stderr[-300:]
+    res["stack"] = snap.get("stack")
+    res["handler_ran"] = not snap.get("handler_did_not_run", False)
+    if not res["handler_ran"]:
+        res["problems"] = problems0 + [("real-signal:handler-did-not-run", dict(rc=p.returncode, expected=case["exit_code"]))]
+        shutil.rmtree(out, ignore_errors=True)
+        return res
+    res = resume_and_check(case, res, snap)
+    res["problems"] = problems0 + res["problems"]
+    for f in (snapfile, snapfile + ".reg"):
+        if os.path.exists(f):
+            os.remove(f)
     return res
 
 
@@ -498,7 +677,7 @@ def main():
     if chk.replay_case:
         c = dict(chk.replay_case["case"])
         c["outdir"] = os.path.join(chk.scratch, "replay")
-        r = multi(c) if c.get("multi") else inject(c)
+        r = multi(c) if c.get("multi") else (inject(c) if "rel" in c else real_signal(c))
         print(json.dumps(r, indent=1, default=str)[:3000])
         return
     if chk.args.only:
@@ -588,33 +767,83 @@ def main():
             seen.add(k)
             chk.violation(k, f"{c['sampler']} history with interruptions at iterations {c['its']} (signal {c['signum']}, before the first line of {c['func']}), "
                              f"{r['delivered']} delivered: {key}: {detail}; segments={r['segments']} final={r.get('final')}", dict(small, multi=True))
-    # ---- real signals
+    # ---- real signals: (a) raised at chosen points, every signal x both samplers; (b) asynchronous, after a wall-clock delay
     rs_cases = []
-    picks = [("std", "update_state", 1), ("std", "check_state", 1), ("std", "nested_sampling_loop", 30), ("ins", "ins_loop", 2), ("ins", "add_and_update_points", 2), ("std", "fp_train", 61)]
+    sync = [("std", "consume_sample", 1, signal.SIGTERM, 130), ("std", "yield_sample", 30, signal.SIGINT, 7), ("std", "fp_populate", 61, signal.SIGALRM, 3),
+            ("ins", "ins_loop", 2, signal.SIGALRM, 130), ("ins", "add_and_update_points", 2, signal.SIGTERM, 7), ("ins", "ifp_draw", 2, signal.SIGINT, 3),
+            ("std", "update_state", 1, signal.SIGALRM, 130), ("std", "check_state", 61, signal.SIGTERM, 130), ("std", "nested_sampling_loop", 30, signal.SIGINT, 130)]
     if not chk.quick:
-        picks = picks * 3
+        sync = sync + [(s_, f_, ph + 2, [signal.SIGTERM, signal.SIGINT, signal.SIGALRM][(j + 1 + [signal.SIGTERM, signal.SIGINT, signal.SIGALRM].index(sg)) % 3], ec)
+                       for j in range(2) for (s_, f_, ph, sg, ec) in sync]
+    for i, (s_, fn, ph, sg, ec) in enumerate(sync):
+        rs_cases.append(dict(sampler=s_, func=fn, min_it=ph, signum=int(sg), exit_code=ec, kwargs={}, outdir=os.path.join(chk.scratch, f"real-{i}"), _timeout=500))
+    cal_cases = [dict(sampler=s_, calibrate=how, kwargs={}, outdir=os.path.join(chk.scratch, f"cal-{s_}-{how}"), _timeout=450) for s_ in ("std", "ins") for how in ("time", "calls")]
+    cal = {}
+    if not chk.args.only or chk.args.only in ("real", "async"):
+        for c, r in zip(cal_cases, run_cases(cal_cases, "checks.c13:calibrate", chk.scratch, nproc=chk.args.nproc, timeout=450)):
+            cal[(c["sampler"], c["calibrate"])] = r
+    chk.extra["calibration_runs"] = {f"{k[0]}:{k[1]}": v for k, v in cal.items()}
+    cal_ok = all(("seconds" in cal.get((s_, "time"), {})) and cal.get((s_, "calls"), {}).get("calls", 0) > 100 for s_ in ("std", "ins"))
+    if not cal_ok and cal:
+        chk.note_inconclusive(f"calibration runs of the asynchronous-signal section failed: {str(cal)[:300]}")
+    n_async = (16 if chk.quick else 240) if cal_ok else 0
+    for i in range(n_async):
+        rng = rng_for(chk.seed, "C13", "async", i)
+        s_ = "ins" if i % 4 == 3 else "std"
+        sg = [signal.SIGALRM, signal.SIGTERM, signal.SIGINT][i % 3]
+        kwargs = {}
+        if s_ == "std" and i % 8 == 5:
+            kwargs = dict(checkpointing=False)
+        c = dict(sampler=s_, func=None, min_it=None, signum=int(sg), exit_code=[130, 7][i % 2], kwargs=kwargs, outdir=os.path.join(chk.scratch, f"async-{i}"), _timeout=500)
+        if i % 2:
+            # the n-th entry of any nessai function during the sampling loop (deterministic, replayable; callees of the enumerated functions included)
+            c.update(how="call-count", n_call=int(rng.integers(1, max(2, int(0.97 * cal[(s_, "calls")]["calls"])))))
+        else:
+            # wall-clock delay within the measured length of the loop: whatever bytecode boundary the run has reached (not replayable; the stack is recorded)
+            c.update(how="itimer" if sg == signal.SIGALRM else "kill", delay=round(float(rng.uniform(0.01, 0.9 * cal[(s_, "time")]["seconds"])), 3))
+        rs_cases.append(c)
     if chk.args.only:
-        picks = []
-    for i, (s, fn, ph) in enumerate(picks):
-        cand = [t for t in targets if t["sampler"] == s and t["func"] == fn]
-        t = cand[(i * 7) % len(cand)]
-        rs_cases.append(dict(sampler=s, func=fn, rel=t["rel"], min_it=ph, signum=[signal.SIGTERM, signal.SIGINT, signal.SIGALRM][i % 3], exit_code=[130, 7, 130][i % 3],
-                             outdir=os.path.join(chk.scratch, f"real-{i}"), _timeout=350))
-    rres = run_cases(rs_cases, "checks.c13:real_signal", chk.scratch, nproc=chk.args.nproc, timeout=350)
-    for c, r in zip(rs_cases, rres):
-        if "rc" not in r:
-            chk.note_inconclusive(f"real signal {c['func']}: {str(r)[:300]}")
+        rs_cases = [c for c in rs_cases if chk.args.only in ("real", "async") and (chk.args.only == "real" or c.get("how") is not None)]
+    rres = run_cases(rs_cases, "checks.c13:real_signal", chk.scratch, nproc=chk.args.nproc, timeout=500)
+    async_stacks = set()
+    for ci, (c, r) in enumerate(zip(rs_cases, rres)):
+        small = {k: v for k, v in c.items() if k not in ("outdir", "_timeout")}
+        is_async = c.get("how") is not None
+        if "rc" not in r or r.get("registered") is None:
+            chk.note_inconclusive(f"real signal {small}: {str(r)[:300]}")
             chk.case_done()
             continue
+        chk.count("real_signal_processes")
+        for key, detail in (r.get("problems") or []) if not r["interrupted"] else []:
+            chk.violation("C13:" + key, f"{c['sampler']} sampler: {key}", small)
         if not r["interrupted"]:
             chk.count("real_signal_points_not_reached")
             chk.case_done()
             continue
         chk.count("real_signals_delivered")
-        chk.case_done(ident=("real", c["sampler"], c["func"], c["rel"], c["signum"]), nontrivial=True,
-                      sample=dict(real_signal=dict(sampler=c["sampler"], func=c["func"], signum=int(c["signum"]), configured_exit_code=c["exit_code"]), process_exit_status=r["rc"]) if len(chk.samples) < 7 else None)
+        chk.count(f"real_signal_{int(c['signum'])}_delivered_{c['sampler']}")
+        chk.count("real_signals_asynchronous" if is_async else "real_signals_at_chosen_points")
+        pred = r.get("pred") or {}
+        if is_async:
+            async_stacks.add((c["sampler"], tuple(r.get("stack") or ())))
+            states.add((c["sampler"], tuple(sorted(k for k, v in pred.items() if v))))
+        ok = not r["problems"]
+        chk.count("real_signals_resumed_to_valid_run" if ok else "real_signals_with_problems")
+        chk.case_done(ident=("real", c["sampler"], c.get("func"), c["signum"], c.get("delay"), c.get("n_call")), nontrivial=True,
+                      sample=dict(real_signal=small, process_exit_status=r["rc"], interrupted_at_iteration=r.get("snap_it"), interrupted_stack=r.get("stack"), state_predicates=pred,
+                                  resume=r.get("resume"), final=r.get("final"), problems=r["problems"][:2]) if len(chk.samples) < 9 and (ci % 3 == 0 or not is_async) else None)
+        seen = set()
         for key, detail in r["problems"]:
-            chk.violation("C13:" + key, f"real signal {int(c['signum'])} in {c['sampler']} {c['func']}+{c['rel']}: {detail}", {k: v for k, v in c.items() if k not in ("outdir", "_timeout")})
+            k = classify(r, key)
+            kinds.setdefault(k, {})
+            kinds[k][key] = kinds[k].get(key, 0) + 1
+            if k in seen:
+                continue
+            seen.add(k)
+            chk.violation(k, f"real signal {int(c['signum'])} ({('after %.3f s' % c['delay'] if c.get('delay') is not None else 'at nessai function entry #%d' % c['n_call']) if is_async else 'before the first line of ' + c['func']}) in the {c['sampler']} sampler, "
+                             f"interrupted at iteration {r.get('snap_it')} in {r.get('stack')}, state {pred}, process exit status {r['rc']} (configured {c['exit_code']}): {key}: {detail}; "
+                             f"resume={r.get('resume')} final={r.get('final')}", small)
+    chk.extra["asynchronous_signal_distinct_interrupted_stacks"] = sorted(str(x) for x in async_stacks)
     chk.extra["problem_kinds_by_mechanism"] = kinds
     chk.extra["distinct_source_lines_interrupted"] = len(reached_lines)
     chk.extra["distinct_interruption_states"] = sorted(str(s) for s in states)
@@ -625,11 +854,16 @@ def main():
                "insert_live_point, _NSIntegralState.increment, update_state, check_state, check_training, check_proposal_switch, train_proposal, loop, finalise, proposal "
                "draw/populate/train; INS: loop, add_and_update_points, remove_samples, add_new_proposal(+weight), OrderedSamples methods, proposal draw/train) at phases "
                "covering the first iteration, uninformed sampling, the switch/first training and late flow sampling; exit code, conservation of points at resume, count "
-               "identities and the completed run (C01/C03/C05 monitors) are checked; INS: resume file hash unchanged by the handler. Plus real signals (SIGTERM/SIGINT/"
-               "SIGALRM, two exit codes) delivered with os.kill to child processes. Plus histories with 2-4 interruptions and resumes in a row (uninformed phase, across the "
+               "identities and the completed run (C01/C03/C05 monitors) are checked; INS: resume file hash unchanged by the handler. Plus real signals: every one of SIGTERM/SIGINT/"
+               "SIGALRM for each sampler (three exit codes) raised with os.kill in child processes that keep nessai's own registered handlers (an observer wrapped around "
+               "whatever signal.getsignal returns records the state at the instant the handler runs), at chosen function heads and 'anywhere': at the n-th entry of any nessai "
+               "function of the sampling loop (n uniform over a calibration count; deterministic) and after a wall-clock delay (setitimer / a timer thread; uniform over the "
+               "measured length of the loop) - the process exit status must be the configured code and the checkpoint left is resumed and finished under the same oracles. Plus histories with 2-4 interruptions and resumes in a row (uninformed phase, across the "
                "proposal switch, flow phase, INS iteration heads), each delivered at a point where the state is consistent, with point conservation checked at every resume "
                "and the monitors armed in every segment. Non-trivial = injection that was delivered; distinct by (function, line, phase).",
-               require_observed=["injections_delivered", "injections_std", "injections_ins", "real_signals_delivered", "injections_resumed_to_valid_run", "multi_histories_with_two_or_more_resumes"])
+               require_observed=["injections_delivered", "injections_std", "injections_ins", "real_signals_delivered", "injections_resumed_to_valid_run", "multi_histories_with_two_or_more_resumes",
+                                 "real_signal_15_delivered_std", "real_signal_2_delivered_std", "real_signal_14_delivered_std", "real_signal_15_delivered_ins", "real_signal_2_delivered_ins",
+                                 "real_signal_14_delivered_ins", "real_signals_asynchronous"])
 
 
 if __name__ == "__main__":
